@@ -39,6 +39,9 @@ TRUSTED = [
     "Model/Table.v + Model/Layout.v are hand-written transcriptions of renderer/table.py and "
     "renderer/recipe_to_table.py (dict view + lookup function for the Cell/ExtendedCell array; overlapping or "
     "zero-span dicts are an explicit OutsideModel outcome, proved unreachable from well-formed trees)",
+    "Spec/LayoutSpec.v is the formal reading of the property text: Tiling, explicit coordinates place/node_rect, "
+    "the outline rule spec_cell(bordered_regions), drawn, decode/canon (what 'read back unambiguously' means: "
+    "untitled single-output sub recipes whose outline coincides with an outline drawn anyway are erased by canon)",
     "Model/Layout.v ltree_of_node: the skeleton of a recipe node (suite `skeleton` compares it with the harness' "
     "own projection)",
     "correspondence harness: rgv/props/C02.py canonicalisation (cells located by object identity), "
@@ -386,7 +389,7 @@ def skeletons(tier: str, rng: random.Random) -> List[Any]:
         sk += G.random_skeletons(rng, 2300, big=16)
     else:
         sk = list(G.exhaustive_skeletons(5, double_wrap_upto=3, refs_upto=3))
-        sk += G.random_skeletons(rng, 30000, big=150)
+        sk += G.random_skeletons(rng, 20000, big=100)
     return sk
 
 
@@ -425,7 +428,12 @@ def suites(tier: str, seed: int) -> List[Suite]:
             ske.cases.append(skeleton_case(t))
     # the specification (Spec/LayoutSpec.v) against the model on the same trees (theorem C02_layout_refines_spec
     # proves this for all trees; evaluating it keeps the statement honest if the model is edited)
+    nbig = 0
     for c in lay.cases:
+        if len(c.coq_out) > 40000:       # the few largest trees: only some of them (cost grows quadratically)
+            nbig += 1
+            if nbig % 6 != 1:
+                continue
         spe.cases.append(Case(input=c.input, coq_in=c.coq_in, coq_out="tt", impl=None, violation=None,
                               nontrivial=c.nontrivial, tags=["spec"]))
     return [lay, ske, spe]
